@@ -111,6 +111,9 @@ class BindSpec(Spec):
         return out
 
 
+DEFPTR_ENVS = {"default": {}, "optdec": {"SONIC_USE_OPTDEC": "1"}}
+
+
 class C01(BindSpec):
     prop = "C01"
     lean_modules = ["SonicSpec.Props.C01", "SonicSpec.Props.C01Dir"]
@@ -152,7 +155,8 @@ class C01(BindSpec):
                 Stream("dir-types", "dir.types", 250 if q else 30000, timeout=0.1),
                 Stream("dir-cutoff", "dir.cutoff", 80 if q else 4000, timeout=0.5),
                 Stream("dir-sub", "dir.sub", 80 if q else 6000, timeout=0.1),
-                Stream("dir-run", "dir.run", 400 if q else 40000, timeout=0.1)]
+                Stream("dir-run", "dir.run", 400 if q else 40000, timeout=0.1),
+                Stream("defptr", "bind.defptr", 200 if q else 6000, envs=DEFPTR_ENVS, timeout=0.05)]
 
     def judge_dir(self, case, sonic, model):
         out = []
@@ -800,7 +804,79 @@ def m_fastmap_dup_key_null(d, params):
     return j.get("val") == o.get("val") and f.get("val") != o.get("val") and f.get("sonic") == "ok"
 
 
+DEFPTR_FIELD_RE = re.compile(r"\(f \S+ \S+ \(lib (DirRef|DirRefT)\)\)")
+DEFPTR_KINDS = ("value-differs", "accepts-what-reference-rejects", "rejects-what-reference-accepts")
+
+
+def m_field_defined_ptr(d, params):
+    """a struct FIELD whose type is a defined pointer type (`type DirRef *MV`, `type DirRefT *TV`; the defined type has no
+    methods, the element's pointer type has UnmarshalJSON / UnmarshalText): internal/resolver/resolver.go:168 rebuilds the
+    field type with reflect.PtrTo, so both decoders call the element's method where encoding/json decodes field by field.
+    Narrow: the destination type has such a field; nothing else is looked at."""
+    if not d["kind"].startswith(DEFPTR_KINDS):
+        return False
+    return bool(DEFPTR_FIELD_RE.search(_typ(d)))
+
+
+def _sx(t):
+    """type expression -> nested lists"""
+    toks = t.replace("(", " ( ").replace(")", " ) ").split()
+    pos = [0]
+
+    def rd():
+        if pos[0] >= len(toks):
+            return ""
+        x = toks[pos[0]]
+        pos[0] += 1
+        if x != "(":
+            return x
+        out = []
+        while pos[0] < len(toks) and toks[pos[0]] != ")":
+            out.append(rd())
+        pos[0] += 1
+        return out
+    return rd()
+
+
+def _defptr_elem_depth(t, sp=0, field=False):
+    """largest static value-stack depth (`sp` of compileOne: +1 per slice / array / struct level, +2 per map) at which a defined
+    pointer type is met as something other than a struct field; -1 = nowhere"""
+    if not isinstance(t, list) or not t:
+        return -1
+    h = t[0]
+    if h == "lib":
+        return sp if (len(t) > 1 and t[1] in ("DirRef", "DirRefT") and not field) else -1
+    if h == "ptr":
+        return _defptr_elem_depth(t[1], sp, field)
+    if h == "sl":
+        return _defptr_elem_depth(t[1], sp + 1)
+    if h == "arr":
+        return _defptr_elem_depth(t[2], sp + 1) if len(t) > 2 else -1
+    if h == "map":
+        return _defptr_elem_depth(t[2], sp + 2) if len(t) > 2 else -1
+    if h == "st":
+        return max([-1] + [_defptr_elem_depth(f[3], sp + 1, True) for f in t[1:] if isinstance(f, list) and len(f) > 3])
+    return -1
+
+
+def m_c09_namedptr_deferred(d, params):
+    """C09-jitdec-namedptr-inline-depth seen through typed Unmarshal: the JIT decodes the element of a defined pointer type in
+    place (like encoding/json) above MaxInlineDepth (3) and through `_OP_recurse` -> the element's own program -> its
+    UnmarshalJSON / UnmarshalText at or below it.  JIT environment only; the destination has a defined pointer type that is
+    not a struct field at static depth >= 3."""
+    if not d["kind"].startswith(DEFPTR_KINDS):
+        return False
+    if not all(_is_jit(e) for e in _envs(d)):
+        return False
+    try:
+        return _defptr_elem_depth(_sx(_typ(d))) >= 3
+    except Exception:
+        return False
+
+
 MATCHERS = {
+    "field_defined_pointer_type_calls_elem_unmarshaler": m_field_defined_ptr,
+    "c09_jitdec_namedptr_deferred": m_c09_namedptr_deferred,
     "fastmap_dup_key_null_keeps_value": m_fastmap_dup_key_null,
     "c19_neg_zero_literal": m_c19_neg_zero,
     "c19_f32_double_rounding": m_c19_f32_double_rounding,
